@@ -176,6 +176,18 @@ CLAIMED = {
             '(CIGAR/MD decoding) inside read_to_consensus_dict is assumed; order-independence and duplication-invariance for '
             'arbitrary molecule sizes rest on the specification being a function of per-base counts (bounded check only).',
             '5/C13'),
+    'C14': ('Exhaustive (finite domain, executed on the real TAPS class): for every reference context over ACGTN, both strands, '
+            'every observed base (upper and lower case) and truncated contexts at contig ends, position_to_context returns the true '
+            'three-base context (reverse complement on the G strand) and the letter z/x/h by CpG/CHG/CHH, upper case exactly when '
+            'the conversion C>T / G>A is observed, "." otherwise. TAPSMolecule.obtain_methylation_calls asks the consensus only for '
+            'the reference base the chemistry converts on the molecule\'s strand (both TAPS strand conventions), inside the mate-'
+            'overlap-safe span unless unsafe calls are allowed, and records consensus/reference base/context per position; the '
+            'mate-overlap-safe window itself (shared unit with C13).',
+            'a context containing a non-ACGT base gives no call (my reading for CGN, flagged in DESIGN); reference.fetch, '
+            'get_aligned_pairs and the consensus (C13) through assumed contracts; set_methylation_call_tags (XM string one '
+            'character per aligned base, MC/uC/sZ/sz/sX/sx/sH/sh totals) is checked for three symbolic calls and one read with '
+            'seven aligned pairs: bounded stand-in, not counted as proved.',
+            '5/C14'),
 }
 
 NOT_YET = 'check not built yet (framework under construction; see DESIGN.md section 5)'
